@@ -52,6 +52,14 @@ CHECKS = {
             "entrywise relational lemmas on the cost specs (transpose symmetry, diagonal shift, scaling, Linf<=L2, ground triangle inequalities) proved by z3 + the C01/C02 value contracts; the laws of the optimum themselves are paper lemmas exercised metamorphically on diagrams up to 60 (quick) / 200 (thorough) points",
             "Mixed: what is proved is that the code computes min-max / min-sum over a cost matrix with the stated entrywise symmetries; that these imply the metric and invariance laws is L3-L9 (not machine-checked); the bounded part samples the laws directly, including chain and dominant-bar families.",
             "L3-L9 paper lemmas; dependency contracts of C01/C02; float rule of DESIGN 2.6 for comparisons"),
+    "C04": ("proof",
+            "VCs from the AST of the real _transform for 9 kernel/weight/skew variants (loop invariant: every pixel == partial Sigma of weight x inclusion-exclusion of the kernel CDF; fast path and general path against the same spec) and of linear_ramp; kernels enter through their C13 contracts; z3/cvc5; run-time oracle built on SciPy CDFs",
+            "For every diagram size/content, resolution and corner grid: each pixel of the real _transform equals Sum_i w_i * mass_i(pixel) with the first axis birth, for scalar / isotropic / diagonal / correlated Gaussian, uniform and an arbitrary user kernel, user / persistence / linear-ramp weights, skew on or off; the image shape equals the resolution; the argument is never written. Numerical accuracy of the correlated kernel is C13's bounded part.",
+            "C13 (kernel contracts), D8 erfc, D9 meshgrid/flatten/reshape algebra (structural model); arithmetic definedness assumed for sigma > 0; generator, models, contracts trusted"),
+    "C11": ("proof",
+            "contracts on the real PersistenceImager.transform (empty / single / collection / parallel variants; _transform modular; joblib as dependency contract; parameter binding through the real signature) + the pixel contract of C04; run-time metamorphic laws with real joblib workers",
+            "Proved: an empty diagram yields a zero image of the configured resolution; a single diagram and each element of a collection are mapped by _transform with exactly the imager's parameters, in order, serially or through Parallel/delayed with any n_jobs and either skew; transform leaves the fitted state untouched; the pixel formula is a sum over points (C04), from which additivity, order freedom and zero-weight neutrality follow by Sigma meta-rules. Laws are additionally sampled with real workers.",
+            "D17 joblib order; Sigma-split / commutativity meta-rules; C13 for non-negativity; generator, models, contracts trusted"),
 }
 
 NOT_YET = "check not built yet in this session (planned per DESIGN.md section 5)"
